@@ -443,7 +443,7 @@ class ObjectAliasMixin(GetMembersMixin, SetMembersMixin, DelMembersMixin, Serial
 
         # If the object is defined at the module-level and is listed in `__all__`, it is public.
         # If the parent module defines `__all__` but does not list the object, it is private.
-        if self.parent and self.parent.is_module and bool(self.parent.exports):  # type: ignore[attr-defined]
+        if self.parent and self.parent.is_module and self.parent.exports is not None:  # type: ignore[attr-defined]
             return self.name in self.parent.exports  # type: ignore[attr-defined]
 
         # Special objects are always considered public.
